@@ -49,9 +49,24 @@ def boot_file_op(g, rng, model, media):
     else:
         length = rng.choice([1, 8, 9, 30, 63, 64, 65, 512, 2047, 2048, 2049, 4096, 5000, 6144, 20000])
         data = None
+    premade = False
+    if media == 'noemul' and length >= 64 and rng.random() < 0.12:
+        # a boot file that already carries a boot info table (made for another place on another
+        # image: right PVD sector, length and checksum, stale file sector); no table is asked for,
+        # so these bytes are ordinary content
+        import struct as _st
+        body = bytearray(random.Random(length * 31 + 7).randbytes(length))
+        words = _st.unpack('<%dI' % ((length - 64) // 4), bytes(body[64:64 + (length - 64) // 4 * 4]))
+        tail = bytes(body[64 + (length - 64) // 4 * 4:])
+        csum = (sum(words) + (int.from_bytes(tail.ljust(4, b'\x00'), 'little') if tail else 0)) & 0xffffffff
+        body[8:64] = _st.pack('<IIII', 16, rng.choice([7, 33, 1000]), length, csum) + b'\x00' * 40
+        data = bytes(body)
+        premade = True
     op = {'op': 'add_fp', 'cid': g.new_cid(), 'length': length}
     if data is not None:
         op['data'] = data
+    if premade:
+        op['premade_table'] = True
     parent = g.pick_dir(model, 'iso', 5)
     op['iso_path'] = join(parent, g.iso_file_name(cfg.level))
     if cfg.rr:
@@ -101,15 +116,28 @@ def build(cs, tier):
     n_pre = len(pre)
     # boot phase
     nsec = rng.choice([1, 1, 2, 3, 5, 12, 32])
+    prev_boot = None
+    counters_same_name = [0]
     for k in range(nsec):
         media = rng.choice(['noemul', 'noemul', 'noemul', 'floppy', 'hdemul'])
         if nsec > 5 and media == 'floppy':
             media = 'noemul'
         bop = boot_file_op(h.gen, rng, h.sess.model, media)
+        if k >= 1 and prev_boot and rng.random() < 0.25:
+            # the same file name as the previous boot file, in another directory
+            others = sorted(d for d in h.sess.model.dirs('iso') if d != (prev_boot.rsplit('/', 1)[0] or '/') and h.sess.model.depth(d) < 6
+                            and join(d, prev_boot.rsplit('/', 1)[1]) not in h.sess.model.ns['iso'])
+            if others:
+                bop['iso_path'] = join(rng.choice(others), prev_boot.rsplit('/', 1)[1])
+                counters_same_name[0] += 1
         out = h.apply(bop)
         if not out.ok:
             continue
-        h.apply(eltorito_op(rng, h.sess.model, bop['iso_path'], media, h.sess.model.boot is None))
+        prev_boot = bop['iso_path']
+        eop = eltorito_op(rng, h.sess.model, bop['iso_path'], media, h.sess.model.boot is None)
+        if bop.get('premade_table'):
+            eop.pop('boot_info_table', None)
+        h.apply(eop)
         if media == 'noemul' and rng.random() < 0.15 and h.sess.model.boot is not None and len(h.sess.model.boot['entries']) < 30:
             # a second catalog entry that boots the very same file (e.g. BIOS and EFI from one image)
             again = eltorito_op(rng, h.sess.model, bop['iso_path'], media, False)
